@@ -118,6 +118,7 @@ func runC11(c *Ctx, r *Report) {
 	// R2: reuse the return-range part of C12
 	{
 		sub := NewReport("C12", r.Tier, c)
+		sub.Sub = true
 		runC12(c, sub)
 		n := 0
 		for _, o := range sub.Obls {
@@ -356,6 +357,7 @@ func runC11(c *Ctx, r *Report) {
 	r.Rule("C07.R9", "(shared) fixed-capacity containers: length fields within capacity, index and slice bounds proven")
 	{
 		sub := NewReport("C07", r.Tier, c)
+		sub.Sub = true
 		c.checkBoundedContainers(sub, "C07.R9", map[string]bool{"eval": true, "object": true})
 		for _, o := range sub.Obls {
 			if !strings.Contains(o.Func, "Map") && !strings.Contains(o.Func, "object.Range") && !strings.Contains(o.Func, "MakePair") && !strings.Contains(o.Func, "MakeQuad") {
